@@ -289,6 +289,10 @@ def cv_compare(case, real, model):
 def main(c):
     exe = c.cxx("driver", ["driver.cxx"], SRC)
     cases = gen_cases(c)
+    if c.replay and c.replay.get("replay", {}).get("case"):  # ./check C32 --replay f: the probes + the recorded case only
+        w = c.replay["replay"]["case"].split()
+        conv = {"TC": (unhx, unhx, lambda x: x == "1"), "RA": (unhx, unhx, unhx, int)}.get(w[0], (unhx,) * (len(w) - 1))
+        cases = cases[:4] + [tuple([w[0]] + [f(x) for f, x in zip(conv, w[1:])])]
     cf = os.path.join(c.work, "cases.txt")
     with open(cf, "w") as f:
         f.write("\n".join(enc(x) for x in cases) + "\n")
